@@ -14,7 +14,7 @@ SHRINK_BUDGET = (150, 400)
 
 
 def plan(prop, tier):
-  return 1500 if tier == 'quick' else 40000
+  return 1500 if tier == 'quick' else 16000
 
 
 def worker_class(prop, tier, run):
